@@ -428,7 +428,7 @@ impl EventGen for GroupElement {
 
         // push variables onto the stack: the group's attributes as evaluated here,
         // where the group opens (not re-evaluated by whatever reads them inside it)
-        context.push_element(&new_el);
+        context.push_element_scope(&new_el)?;
 
         let mut content_bb = None;
         let mut events = OutputList::new();
